@@ -246,6 +246,14 @@ def _worker_init(seed):
 
     warnings.simplefilter("ignore")
     os.environ.setdefault("PYTHONHASHSEED", "0")
+    try:
+        from . import fastsync
+        fastsync.install()
+        if os.environ.get("VERIF_ZARR_PIN", "1") == "1":
+            import zarr
+            zarr.config.set({"threading.max_workers": 1, "async.concurrency": 1})
+    except Exception:
+        pass
 
 
 def worker_seed():
